@@ -2,6 +2,7 @@ import EupsModel.Lemmas.LockEx
 import EupsModel.Lemmas.LockRes
 import EupsModel.Lemmas.LockAtomic
 import EupsModel.Lemmas.LockPath
+import EupsModel.Lemmas.LockRace
 /-! C09 — exclusive database locks exclude every other holder under all interleavings.
 
 Property theorems only.  Model: `Model/Lock.lean` (one transition = one file-system call of one process, in the
@@ -341,6 +342,76 @@ example :
       [0, 0, 0, 1, 1, 1]).comp 0).files = [(.ex, 1)] := by decide
 
 end path
+
+/-! ### classification: the three races are the only way to break `Mutex` -/
+
+/-- On a schedule none of whose steps is a scan-before-create (`RaceA`), a stale `rmdir` (`RaceB`) or a trepidation
+exit (`RaceC`), `Mutex` holds — any number of shared and exclusive requesters, retries and re-entering children,
+arbitrary interleaving otherwise.  Hypothesis on the configuration: `EUPS_LOCK_PID` maps are flat (the named process
+itself started without the variable — what `takeLocks` guarantees by never overwriting it). -/
+theorem C09_classification (kind : Pid → Kind) (lp : Pid → Option Pid) (tries : Pid → Nat) (hflat : Flat lp)
+    (sched : List Pid) (hrf : RaceFree (init kind lp tries) sched) :
+    Mutex (run (init kind lp tries) sched) :=
+  (rfInv_run _ sched (rfInv_init kind lp tries hflat) hrf).mutex
+
+/-- The same, read the other way: every reachable state that violates `Mutex` has one of the three races in its
+history. -/
+theorem C09_violation_has_race (kind : Pid → Kind) (lp : Pid → Option Pid) (tries : Pid → Nat) (hflat : Flat lp)
+    (sched : List Pid) (hv : ¬ Mutex (run (init kind lp tries) sched)) :
+    ∃ pre p post, sched = pre ++ p :: post ∧
+      (RaceA (run (init kind lp tries) pre) p ∨ RaceB (run (init kind lp tries) pre) p ∨
+       RaceC (run (init kind lp tries) pre) p) := by
+  rcases raceFree_or_racy (init kind lp tries) sched with h | h
+  · exact absurd (C09_classification kind lp tries hflat sched h) hv
+  · exact h
+
+/-- The flatness hypothesis cannot be dropped: with a chain `lp 2 = 1`, `lp 1 = 0` the two listings of 2's admission test
+are split by 1's `create`; no step is a race, yet 0 (exclusive) and 2 hold together and are not related. -/
+theorem C09_classification_needs_flat :
+    let lp : Pid → Option Pid := fun i => if i = 1 then some 0 else if i = 2 then some 1 else none
+    let sched := [0, 0, 0, 1, 1, 1, 1, 2, 2, 2, 1, 2, 2]
+    raceFreeUpTo 3 (init (kinds [.ex, .ex, .sh]) lp once) sched = true ∧
+    (run (init (kinds [.ex, .ex, .sh]) lp once) sched).pc 0 = .hold ∧
+    (run (init (kinds [.ex, .ex, .sh]) lp once) sched).pc 2 = .hold ∧
+    ¬ related (run (init (kinds [.ex, .ex, .sh]) lp once) sched) 0 2 := by decide
+
+/-- non-vacuity: a race-free schedule that is far from phase-atomic — the reader's acquisition is interleaved call by
+call with the re-entry of the updater's child — and `Mutex` indeed holds at its end. -/
+example :
+    let lp : Pid → Option Pid := fun i => if i = 2 then some 0 else none
+    let s0 := init (kinds [.ex, .sh, .ex]) lp once
+    let sched := [0, 0, 0, 1, 2, 2, 1, 2, 1, 1, 2, 2, 0, 0, 0, 0, 0]
+    RaceFree s0 sched ∧ Flat lp ∧ (run s0 sched).pc 2 = .hold ∧ (run s0 sched).pc 1 = .failedAcq .runtime ∧
+    (run s0 sched).pc 0 = .done := by
+  refine ⟨raceFree_of_upTo 3 _ _ (by decide) (fun q hq => by simp [init, inflight]) (by decide), ?_, by decide,
+    by decide, by decide⟩
+  intro p r h
+  by_cases hp : p = 2
+  · subst hp; simp at h; subst h; simp
+  · simp [hp] at h
+
+/-- Several stacks: when two unrelated commands hold the lock of stack `d` in their bodies, one of them exclusively,
+the history of that stack — a schedule of the single-directory model, by projection — contains one of the three races.
+(The other way to break `MutexM`, a command in its body *without* a lock on `d`, is the trepidation exit itself.) -/
+theorem C09_path_violation_has_race (kind : Pid → Kind) (lp : Pid → Option Pid) (tries : Pid → Nat)
+    (path : Pid → List LockPath.Dir) (explicit : Pid → Bool) (hflat : Flat lp) (sched : List Pid)
+    (d : LockPath.Dir) (p q : Pid) (hpq : p ≠ q)
+    (hnrel : ¬ related ((LockPath.mrun (LockPath.minit kind lp tries path explicit) sched).comp d) p q)
+    (hp : ((LockPath.mrun (LockPath.minit kind lp tries path explicit) sched).comp d).pc p = .hold)
+    (hq : ((LockPath.mrun (LockPath.minit kind lp tries path explicit) sched).comp d).pc q = .hold)
+    (hk : kind p = .ex) :
+    ∃ sd pre x post, ((LockPath.mrun (LockPath.minit kind lp tries path explicit) sched).comp d) =
+        run (init kind lp tries) sd ∧ sd = pre ++ x :: post ∧
+      (RaceA (run (init kind lp tries) pre) x ∨ RaceB (run (init kind lp tries) pre) x ∨
+       RaceC (run (init kind lp tries) pre) x) := by
+  obtain ⟨sd, hsd⟩ := C09_path_projection kind lp tries path explicit sched d
+  rw [hsd] at hnrel hp hq
+  have hv : ¬ Mutex (run (init kind lp tries) sd) := by
+    intro hm
+    have := hm p q hpq hnrel hp (by simp [init, hk])
+    rw [hq] at this; simp [inBody] at this
+  obtain ⟨pre, x, post, he, hr⟩ := C09_violation_has_race kind lp tries hflat sd hv
+  exact ⟨sd, pre, x, post, hsd, he, hr⟩
 
 /-- The property as stated is false of the protocol. -/
 theorem C09_mutex_false : ¬ MutexAlways := by
